@@ -8,6 +8,7 @@ import (
 	"fmt"
 	"runtime"
 	"sync"
+	"sync/atomic"
 	"testing"
 
 	"pgregory.net/rapid"
@@ -28,7 +29,7 @@ func TestC06_concurrent(t *testing.T) {
 	kit.RequireMode(t, "std")
 	kit.Check(t, kit.Prop[c06cCase]{
 		ID: "C06", Quick: 400, Thor: 20_000,
-		Rule: "2-8 real threads each feeding drop samples to one AIMD limit (with or without a change listener that takes its time); the final estimate must equal the back-off formula applied (threads x drops) times (no lost update); non-trivial = the sequential result is above the floor or was reached within the last thread's share",
+		Rule: "2-8 real threads each feeding drop samples to one AIMD limit (with or without a change listener that takes its time); no thread ever sees the estimate rise, and the final estimate must equal the back-off formula applied (threads x drops) times (no lost update); non-trivial = the sequential result is above the floor or was reached within the last thread's share",
 		Gen: func(t *rapid.T) c06cCase {
 			c := c06cCase{Cfg: genLossCfg(t, []string{"aimd"}), Workers: rapid.IntRange(2, 8).Draw(t, "workers"), Drops: rapid.OneOf(rapid.IntRange(1, 40), rapid.IntRange(50, 1500)).Draw(t, "drops")}
 			c.Cfg.Initial = rapid.OneOf(rapid.IntRange(50, 3000), rapid.IntRange(1000, 100000)).Draw(t, "initial")
@@ -38,7 +39,7 @@ func TestC06_concurrent(t *testing.T) {
 				c.Cfg.Initial = rapid.IntRange(20_000, 400_000).Draw(t, "bigInitial")
 				c.Cfg.Backoff = rapid.SampledFrom([]float64{1, 1, 0.9999, 0.999}).Draw(t, "slowestBackoff")
 			}
-			c.ListenerYields = rapid.SampledFrom([]int{0, 0, 1, 5, 50}).Draw(t, "listenerYields")
+			c.ListenerYields = rapid.SampledFrom([]int{0, 0, 1, 5, 50, 50, 200}).Draw(t, "listenerYields")
 			return c
 		},
 		Run: func(_ *testing.T, c c06cCase) kit.Outcome {
@@ -52,18 +53,29 @@ func TestC06_concurrent(t *testing.T) {
 			}
 			start := make(chan struct{})
 			var wg sync.WaitGroup
+			var rose atomic.Int64
 			for g := 0; g < c.Workers; g++ {
 				wg.Add(1)
 				go func() {
 					defer wg.Done()
 					<-start
+					last := b.Outer.EstimatedLimit()
 					for i := 0; i < c.Drops; i++ {
 						b.Outer.OnSample(0, 1000, 5, true)
+						// nothing but drops is going on: whoever looks twice never sees the estimate go up
+						if now := b.Outer.EstimatedLimit(); now > last {
+							rose.Store(int64(last)<<32 | int64(now))
+						} else {
+							last = now
+						}
 					}
 				}()
 			}
 			close(start)
 			wg.Wait()
+			if v := rose.Load(); v != 0 {
+				return kit.Viol("aimd:drop-raised", "%d threads feeding nothing but drops to AIMD (initial %d, ratio %v): a thread that had read the estimate %d read %d after a further drop of its own had completed", c.Workers, c.Cfg.Initial, c.Cfg.Backoff, v>>32, v&0xffffffff)
+			}
 			want := c.Cfg.Initial
 			for i := 0; i < c.Workers*c.Drops; i++ {
 				want = aimdAfterDrop(want, c.Cfg.Backoff)
